@@ -25,3 +25,28 @@ R.lemma('C11/measure',
     hyps=[C("subset(FIN, ALL)"), C("task in ALL"), C("task not in FIN"), C("UNFIN == ALL - FIN", 'definition of the unfinished set')],
     goal="((ALL - sadd(FIN, task)) == sdel(UNFIN, task)) and (card(sdel(UNFIN, task)) < card(UNFIN))",
     serves=('C11',), note='each yielded completion strictly decreases the number of unfinished planned tasks')
+
+# ---- structural induction over value trees (C15 / C07 / C09).  For a statement P over PV with list/entry analogues PL, PE
+# the schema emits one step lemma per datatype: the statement for a node follows from the statement for its children.
+# Soundness of the schema is the induction principle for finite trees (trusted meta-theory, listed in the evidence).
+def induction(name, P, PL, PE, serves, note=''):
+    R.lemma(f'{name}/step-PV', vars={'v': 'PV'},
+        hyps=[C(f"implies(is_PList(v), {PL.replace('$', 'litems(v)')})", 'IH list items'), C(f"implies(is_PTuple(v), {PL.replace('$', 'titems(v)')})", 'IH tuple items'),
+              C(f"implies(is_PDict(v), {PE.replace('$', 'dents(v)')})", 'IH dict entries'), C(f"implies(is_PFrozen(v), {PE.replace('$', 'fents(v)')})", 'IH frozendict entries')],
+        goal=P.replace('$', 'v'), serves=serves, note=note)
+    R.lemma(f'{name}/step-PL', vars={'l': 'PL'},
+        hyps=[C(f"implies(is_LCons(l), ({P.replace('$', 'head(l)')}) and ({PL.replace('$', 'tail(l)')}))", 'IH head and tail')],
+        goal=PL.replace('$', 'l'), serves=serves, note=note)
+    R.lemma(f'{name}/step-PE', vars={'e': 'PE'},
+        hyps=[C(f"implies(is_ECons(e), ({P.replace('$', 'evalue(e)')}) and ({PE.replace('$', 'erest(e)')}))", 'IH value and rest')],
+        goal=PE.replace('$', 'e'), serves=serves, note=note)
+
+induction('C15/norm-immutable',
+          "implies(normable($), immutable(norm($)))", "implies(normable_list($), imm_list(norm_list($)))", "implies(normable_ents($), imm_ents(norm_ents($)))",
+          ('C15',), 'what construction accepts is stored in immutable form at every depth')
+induction('C15/norm-keeps-tasks',
+          "tasks_in(norm($)) == tasks_in($)", "tasks_in_list(norm_list($)) == tasks_in_list($)", "tasks_in_ents(norm_ents($)) == tasks_in_ents($)",
+          ('C15', 'C02'), 'normalisation neither loses nor invents a dependency (so the dependency search sees exactly the tasks the user passed)')
+induction('C15/norm-idempotent',
+          "implies(immutable($), norm($) == $)", "implies(imm_list($), norm_list($) == $)", "implies(imm_ents($), norm_ents($) == $)",
+          ('C15', 'C07'), 'normalising an already normalised value changes nothing (pickle copies and reconstructed tasks get the same parameters)')
